@@ -10,6 +10,8 @@ changed: the model is no longer known to follow the code, and the check searches
 -/
 import Orda.Gen.Shape
 import Orda.Gen.Expected
+import Orda.Gen.Facts2
+import Orda.Model.TxFlag
 namespace Orda.Shape.C20
 open Orda
 
@@ -18,5 +20,9 @@ theorem source_shape :
     Gen.Shape.client_pkg_internal_datatypes_wired_go = Gen.Expected.client_pkg_internal_datatypes_wired_go ∧
     Gen.Shape.client_pkg_internal_managers_datatype_go = Gen.Expected.client_pkg_internal_managers_datatype_go := by
   decide
+
+/-- the source writes the success flag of TransactionDatatype where `Model/TxFlag` assumes: `true` inside unlock() before the
+    mutex is released, nowhere before `mutex.Lock()`; SetTransactionFail writes `false`; EndTransaction commits iff the flag is on -/
+theorem source_flag_facts : Gen.txFacts = TxFlag.currentFacts := by decide
 
 end Orda.Shape.C20
